@@ -290,7 +290,7 @@ def instances(tier):
         out.append(inst('collocation p%d n%d %s' % (p, n, famname), h_collocation, timeout=900, p=p, n=n, family=famname))
     for second in ('inverse', 'pivot', 'determinant', 'lu_factor'):
         out.append(inst('history pivot-then-%s n2' % second, h_history, timeout=900, n=2, second=second))
-        if not quick:
+        if not quick and second != 'lu_factor':     # (lu_factor n=3 history: > 4000 paths)
             out.append(inst('history pivot-then-%s n3' % second, h_history, timeout=2400, n=3, second=second))
     for dim in (2, 3):
         out.append(inst('vectors dim%d' % dim, h_vectors, dim=dim))
